@@ -71,16 +71,17 @@ Lemma skipn_8_hdr : forall a b c d v (l : list Z), skipn 8 (a :: b :: c :: d :: 
 Proof.
   clear zinflate zcompress zsync. reflexivity. Qed.
 
-Lemma lvc_recv_classic : forall l t,
+Lemma lvc_recv_classic : forall xl l t,
   Z.of_nat (length t) <= c18_lvc_cut_limit ->
-  lvc_recv zinflate l (enc_out zcompress (OClassic t)) = (l, [GotCut t], true).
+  lvc_recv zinflate xl l (enc_out zcompress (OClassic t)) = (l, [GotCut t], true).
 Proof.
   clear zsync.
-  intros l t H. rewrite enc_out_classic_shape. unfold lvc_recv.
+  intros xl l t H. rewrite enc_out_classic_shape. unfold lvc_recv.
   assert (Hn : 0 <= Z.of_nat (length t) < two32) by (unfold two32, c18_lvc_cut_limit in *; lia).
   rewrite (be32_at_4 _ _ _ _ _ t Hn).
   replace (two31 <=? Z.of_nat (length t)) with false
     by (symmetry; apply Z.leb_gt; unfold two31, c18_lvc_cut_limit in *; lia).
+  cbn [andb].
   replace (c18_lvc_cut_limit <? Z.of_nat (length t)) with false by (symmetry; apply Z.ltb_ge; lia).
   rewrite skipn_8_hdr, Z.eqb_refl. reflexivity.
 Qed.
@@ -151,15 +152,15 @@ Proof.
   rewrite Z.mod_small by (unfold two32; lia). unfold two31, two32. lia.
 Qed.
 
-Lemma parse_cut_ext : forall i payload r,
+Lemma parse_cut_ext : forall xl i payload r,
   0 < Z.of_nat (length payload) <= c06_cut_text_limit ->
   st_bytes i = cut_hdr (neg32 (Z.of_nat (length payload))) ++ payload ++ r ->
-  exists j, parse_normal true i = ROk (MCutExt payload) j /\ st_bytes j = r /\ st_eof j = st_eof i.
+  exists j, parse_normal true xl i = ROk (MCutExt payload) j /\ st_bytes j = r /\ st_eof j = st_eof i.
 Proof.
   clear zinflate zcompress zsync.
-  intros i payload r Hl H. unfold cut_hdr in H. cbn [app] in H.
-  destruct (parse_normal_type true i _ _ H) as (j & P & B & E). rewrite P.
-  change (parse_body true c06_rfbClientCutText) with (parse_cut true c06_rfbClientCutText).
+  intros xl i payload r Hl H. unfold cut_hdr in H. cbn [app] in H.
+  destruct (parse_normal_type true xl i _ _ H) as (j & P & B & E). rewrite P.
+  change (parse_body true xl c06_rfbClientCutText) with (parse_cut true xl c06_rfbClientCutText).
   unfold parse_cut.
   set (len := Z.of_nat (length payload)) in *.
   destruct (neg32_small len Hl) as [Hn Hnn].
@@ -171,8 +172,9 @@ Proof.
       symmetry. apply be32_at_4. unfold two31, two32 in *. lia. }
   cbn [need andb].
   replace (two31 <=? neg32 len) with true by (symmetry; apply Z.leb_le; lia).
-  fold (neg32 (neg32 len)). rewrite Hnn.
-  replace (c06_cut_text_limit <? len) with false by (symmetry; apply Z.ltb_ge; lia).
+  fold (neg32 (neg32 len)). rewrite Hnn. cbn [andb].
+  replace ((if xl then c06_cut_text_limit + c06_ext_slack else c06_cut_text_limit) <? len) with false
+    by (symmetry; apply Z.ltb_ge; destruct xl; unfold c06_ext_slack; lia).
   assert (Hnat : nat_of len = length payload) by (unfold nat_of, len; apply Nat2Z.id).
   destruct (read_exact_app (nat_of len) j' payload r B' (eq_sym Hnat)) as (j'' & R2 & B2 & E2).
   exists j''. rewrite (bind_ok _ _ _ _ _ _ _ R2). unfold ret. split; [reflexivity|]. split; congruence.
@@ -266,16 +268,16 @@ Proof.
 Qed.
 
 (* ---- LibVNCClient receives what the server provides ---- *)
-Lemma lvc_recv_provide : forall l data,
+Lemma lvc_recv_provide : forall xl l data,
   l_utf8 l = true ->
   zinflate (zcompress (be32 (Z.of_nat (length data)) ++ data)) = (be32 (Z.of_nat (length data)) ++ data, ZEnd) ->
   0 < Z.of_nat (length data) <= c18_lvc_ext_size_limit ->
   4 + Z.of_nat (length (zcompress (be32 (Z.of_nat (length data)) ++ data))) <= c18_lvc_cut_limit ->
-  lvc_recv zinflate l (enc_out zcompress (OProvide (be32 (Z.of_nat (length data)) ++ data)))
+  lvc_recv zinflate xl l (enc_out zcompress (OProvide (be32 (Z.of_nat (length data)) ++ data)))
   = (l, [GotCutUTF8 data 0], true).
 Proof.
   clear zsync.
-  intros l data Hu Hz Hl Hc. set (size := Z.of_nat (length data)) in *.
+  intros xl l data Hu Hz Hl Hc. set (size := Z.of_nat (length data)) in *.
   set (content := be32 size ++ data) in *. set (z := zcompress content) in *.
   assert (Hs : 0 <= size < two32) by (unfold two32, c18_lvc_ext_size_limit in *; lia).
   unfold enc_out. fold content. fold z. unfold lvc_recv.
@@ -286,8 +288,9 @@ Proof.
     with (c18_rfbServerCutText :: 0 :: 0 :: 0 :: be32 (neg32 L) ++ (be32 (c18_Provide + c18_Text) ++ z)).
   rewrite be32_at_4 by (unfold two31, two32 in *; lia).
   replace (two31 <=? neg32 L) with true by (symmetry; apply Z.leb_le; lia).
-  rewrite Hnn.
-  replace (c18_lvc_cut_limit <? L) with false by (symmetry; apply Z.ltb_ge; lia).
+  rewrite Hnn. cbn [andb].
+  replace ((if xl then c18_lvc_cut_limit + c06_ext_slack else c18_lvc_cut_limit) <? L) with false
+    by (symmetry; apply Z.ltb_ge; destruct xl; unfold c06_ext_slack; lia).
   rewrite skipn_8_hdr.
   replace (Z.of_nat (length (be32 (c18_Provide + c18_Text) ++ z)) =? L) with true
     by (symmetry; apply Z.eqb_eq; rewrite app_length; unfold L; cbn [length be32]; lia).
@@ -310,21 +313,15 @@ Proof.
 Qed.
 
 (* the capability message makes LibVNCClient willing to send UTF-8 text *)
-Lemma lvc_recv_caps : forall l, l_utf8 l = true ->
-  exists l', lvc_recv zinflate l (enc_out zcompress OCaps) = (l', [], true) /\ l_caps l' <> 0 /\ l_utf8 l' = true.
+Lemma lvc_recv_caps : forall xl l, l_utf8 l = true ->
+  exists l', lvc_recv zinflate xl l (enc_out zcompress OCaps) = (l', [], true) /\ l_caps l' <> 0 /\ l_utf8 l' = true.
 Proof.
   clear zsync.
-  intros l Hu. unfold enc_out, lvc_recv.
-  change (be32_at c18_caps_bytes 4) with (Some 4294967288).
-  change (two31 <=? 4294967288) with true. change (neg32 4294967288) with 8.
-  change (c18_lvc_cut_limit <? 8) with false.
-  change (Z.of_nat (length (skipn 8 c18_caps_bytes)) =? 8) with true.
-  cbn [negb andb]. rewrite Hu. unfold lvc_ext.
-  change (be32_at (skipn 8 c18_caps_bytes) 0) with (Some 385875969).
-  change (has 385875969 c18_Text) with true. change (has 385875969 c18_Provide) with true.
-  change (has 385875969 c18_Caps) with true. cbn [negb].
-  eexists. split; [reflexivity|]. cbn [l_caps l_utf8]. split; [|exact Hu].
-  intro H. assert (Hb : Z.testbit (Z.lor (l_caps l) c18_Text) 0 = true).
+  intros xl l Hu. destruct l as [caps u]. cbn [l_utf8] in Hu. subst u.
+  exists (mkLvc (Z.lor caps c18_Text) true).
+  split; [destruct xl; reflexivity|]. cbn [l_caps l_utf8]. split; [|reflexivity].
+  change (l_caps {| l_caps := caps; l_utf8 := true |}) with caps.
+  intro H. assert (Hb : Z.testbit (Z.lor caps c18_Text) 0 = true).
   { rewrite Z.lor_spec. change (Z.testbit c18_Text 0) with true. apply orb_true_r. }
   rewrite H in Hb. discriminate.
 Qed.
@@ -343,7 +340,7 @@ Lemma handle_ext : forall cfg o c b p r,
 Proof.
   clear zcompress zsync.
   intros cfg o c b p r Hst He Hl H. unfold handle_client. rewrite Hst, He. cbn [parse_for].
-  destruct (parse_cut_ext (c_in c) p r Hl H) as (j & P & B & E). rewrite P.
+  destruct (parse_cut_ext (fix_extlimit cfg) (c_in c) p r Hl H) as (j & P & B & E). rewrite P.
   exists j. split; [exact B|]. split; [exact E|].
   unfold apply_msg. replace (c_state (set_in c j)) with SNormal by (destruct c; cbn in *; congruence).
   cbn [apply_normal].
@@ -553,15 +550,15 @@ Qed.
 
 (* the sign-encoded length 0x80000000 (and every other "negative" length whose magnitude
    exceeds 1 MiB) closes the connection before anything is read *)
-Lemma parse_cut_ext_too_big : forall i len0 r,
-  two31 <= len0 < two32 -> c06_cut_text_limit < neg32 len0 ->
+Lemma parse_cut_ext_too_big : forall (xl : bool) i len0 r,
+  two31 <= len0 < two32 -> c06_cut_text_limit + (if xl then c06_ext_slack else 0) < neg32 len0 ->
   st_bytes i = cut_hdr len0 ++ r ->
-  parse_normal true i = RFail PTooBig.
+  parse_normal true xl i = RFail PTooBig.
 Proof.
   clear zinflate zcompress zsync.
-  intros i len0 r Hl Hb H. unfold cut_hdr in H. cbn [app] in H.
-  destruct (parse_normal_type true i _ _ H) as (j & P & B & E). rewrite P.
-  change (parse_body true c06_rfbClientCutText) with (parse_cut true c06_rfbClientCutText).
+  intros xl i len0 r Hl Hb H. unfold cut_hdr in H. cbn [app] in H.
+  destruct (parse_normal_type true xl i _ _ H) as (j & P & B & E). rewrite P.
+  change (parse_body true xl c06_rfbClientCutText) with (parse_cut true xl c06_rfbClientCutText).
   unfold parse_cut.
   change (0 :: 0 :: 0 :: be32 len0 ++ r) with (([0; 0; 0] ++ be32 len0) ++ r) in B.
   destruct (read_rest_app c06_rfbClientCutText c06_sz_ClientCutText j _ _ B eq_refl) as (j' & R & B' & E').
@@ -571,8 +568,9 @@ Proof.
       symmetry. apply be32_at_4. unfold two31, two32 in *. lia. }
   cbn [need andb].
   replace (two31 <=? len0) with true by (symmetry; apply Z.leb_le; lia).
-  fold (neg32 len0).
-  replace (c06_cut_text_limit <? neg32 len0) with true by (symmetry; apply Z.ltb_lt; lia).
+  fold (neg32 len0). cbn [andb].
+  replace ((if xl then c06_cut_text_limit + c06_ext_slack else c06_cut_text_limit) <? neg32 len0) with true
+    by (symmetry; apply Z.ltb_lt; destruct xl; lia).
   reflexivity.
 Qed.
 
@@ -639,3 +637,86 @@ Proof.
 Qed.
 
 End ClipProofs.
+
+(* ---- SetEncodings resets the capability (2d15d75) ---- *)
+Lemma apply_encodings_noext : forall cfg encs k,
+  ~ In c06_rfbEncodingExtendedClipboard encs ->
+  k_ext (apply_encodings cfg k encs) = k_ext k /\ k_out (apply_encodings cfg k encs) = k_out k.
+Proof.
+  intros cfg encs. induction encs as [|e r IH]; intros k Hn; cbn [apply_encodings]; [auto|].
+  destruct (e =? c06_rfbEncodingExtendedClipboard) eqn:E.
+  - apply Z.eqb_eq in E. exfalso. apply Hn. left. exact E.
+  - cbn [andb]. apply IH. intro H. apply Hn. right. exact H.
+Qed.
+
+(* a later SetEncodings without the pseudo-encoding switches the extension off again;
+   nothing is written to the client *)
+Lemma setenc_resets : forall ext_cut cfg o c encs,
+  fix_extreset cfg = true -> ~ In c06_rfbEncodingExtendedClipboard encs ->
+  let a := apply_normal ext_cut cfg o c (MSetEncodings encs) in
+  k_ext (c_clip (a_client a)) = false /\ k_out (c_clip (a_client a)) = k_out (c_clip c) /\
+  a_events a = [] /\ c_closed (a_client a) = c_closed c.
+Proof.
+  intros ext_cut cfg o c encs F Hn. cbn [apply_normal]. rewrite F.
+  destruct (apply_encodings_noext cfg encs (set_ext (c_clip c) false) Hn) as [H1 H2].
+  destruct c; cbn in *. rewrite H1, H2. destruct c_clip; cbn. auto.
+Qed.
+
+(* ... with the pseudo-encoding it is (re-)enabled and the capabilities are sent again *)
+Lemma setenc_enables : forall ext_cut cfg o c encs,
+  g_utf8cb cfg = true -> In c06_rfbEncodingExtendedClipboard encs ->
+  let a := apply_normal ext_cut cfg o c (MSetEncodings encs) in
+  k_ext (c_clip (a_client a)) = true /\ In OCaps (k_out (c_clip (a_client a))).
+Proof.
+  intros ext_cut cfg o c encs U Hin. cbn [apply_normal].
+  destruct (apply_encodings_ext cfg encs (if fix_extreset cfg then set_ext (c_clip c) false else c_clip c) U Hin) as [H1 H2].
+  destruct c; cbn in *. auto.
+Qed.
+
+(* the legacy behaviour (variant bit 4): the capability survives *)
+Lemma setenc_legacy_keeps : forall ext_cut cfg o c encs,
+  fix_extreset cfg = false -> ~ In c06_rfbEncodingExtendedClipboard encs ->
+  let a := apply_normal ext_cut cfg o c (MSetEncodings encs) in
+  k_ext (c_clip (a_client a)) = k_ext (c_clip c).
+Proof.
+  intros ext_cut cfg o c encs F Hn. cbn [apply_normal]. rewrite F.
+  destruct (apply_encodings_noext cfg encs (c_clip c) Hn) as [H1 H2].
+  destruct c; cbn in *. exact H1.
+Qed.
+
+(* ---- the proposed repair notes/fix_C18_3.diff (variant bit 5): 1 KiB of slack for the
+   compressed form of an extended message ---- *)
+Lemma neg32_upto : forall n, 0 < n < two31 -> two31 < neg32 n < two32 /\ neg32 (neg32 n) = n.
+Proof.
+  intros n H. unfold neg32. unfold two31 in H.
+  assert (E1 : (two32 - n) mod two32 = two32 - n) by (apply Z.mod_small; unfold two32; lia).
+  rewrite E1. replace (two32 - (two32 - n)) with n by ring.
+  rewrite Z.mod_small by (unfold two32; lia). unfold two31, two32. lia.
+Qed.
+
+Lemma parse_cut_ext_slack : forall i payload r,
+  0 < Z.of_nat (length payload) <= c06_cut_text_limit + c06_ext_slack ->
+  st_bytes i = cut_hdr (neg32 (Z.of_nat (length payload))) ++ payload ++ r ->
+  exists j, parse_normal true true i = ROk (MCutExt payload) j /\ st_bytes j = r /\ st_eof j = st_eof i.
+Proof.
+  intros i payload r Hl H. unfold cut_hdr in H. cbn [app] in H.
+  destruct (parse_normal_type true true i _ _ H) as (j & P & B & E). rewrite P.
+  change (parse_body true true c06_rfbClientCutText) with (parse_cut true true c06_rfbClientCutText).
+  unfold parse_cut.
+  set (len := Z.of_nat (length payload)) in *.
+  assert (Hlt : 0 < len < two31) by (unfold two31, c06_cut_text_limit, c06_ext_slack in *; lia).
+  destruct (neg32_upto len Hlt) as [Hn Hnn].
+  change (0 :: 0 :: 0 :: be32 (neg32 len) ++ payload ++ r) with (([0; 0; 0] ++ be32 (neg32 len)) ++ (payload ++ r)) in B.
+  destruct (read_rest_app c06_rfbClientCutText c06_sz_ClientCutText j _ _ B eq_refl) as (j' & R & B' & E').
+  rewrite (bind_ok _ _ _ _ _ _ _ R).
+  replace (be32_at (c06_rfbClientCutText :: [0; 0; 0] ++ be32 (neg32 len)) c06_off_cut_length) with (Some (neg32 len)).
+  2:{ change c06_off_cut_length with 4. cbn [app]. rewrite <- (app_nil_r (be32 (neg32 len))).
+      symmetry. apply be32_at_4. unfold two31, two32 in *. lia. }
+  cbn [need andb].
+  replace (two31 <=? neg32 len) with true by (symmetry; apply Z.leb_le; lia).
+  fold (neg32 (neg32 len)). rewrite Hnn. cbn [andb].
+  replace (c06_cut_text_limit + c06_ext_slack <? len) with false by (symmetry; apply Z.ltb_ge; lia).
+  assert (Hnat : nat_of len = length payload) by (unfold nat_of, len; apply Nat2Z.id).
+  destruct (read_exact_app (nat_of len) j' payload r B' (eq_sym Hnat)) as (j'' & R2 & B2 & E2).
+  exists j''. rewrite (bind_ok _ _ _ _ _ _ _ R2). unfold ret. split; [reflexivity|]. split; congruence.
+Qed.
